@@ -86,8 +86,23 @@ func init() {
 		New:  "\t\t\t\tif err != nil {\n\t\t\t\t\tError.Println(err)\n\t\t\t\t}\n\t\t\t\tbackup = i\n\t\t\t\tbreak\n",
 		Rule: "R20.1", Construct: "backup rename"})
 	mutant(&Mutant{Name: "c20-output-may-be-another-tasks-input", Property: "C20", File: "cmd/minify/main.go",
-		Old: "\t\tif j, ok := srcs[filepath.Clean(task.dst)]; ok && i != j {\n\t\t\treturn nil, nil, fmt.Errorf(\"output %v of %v is also an input\", task.dst, task.srcs[0])\n\t\t}\n", New: "\t\t_, _ = i, task\n",
+		Old: "\t\t\tif j, ok := srcs[abs(task.dst)]; ok && i != j {\n\t\t\t\treturn nil, nil, fmt.Errorf(\"output %v of %v is also an input\", task.dst, task.srcs[0])\n\t\t\t} else if j, ok := dsts[abs(task.dst)]; ok {", New: "\t\t\tif j, ok := dsts[abs(task.dst)]; ok {",
 		Rule: "R20.10", Construct: "destinations checked against all sources"})
+	mutant(&Mutant{Name: "c20-cross-check-compares-spellings", Property: "C20", File: "cmd/minify/main.go",
+		Old: "\t\t\t\tsrcs[abs(src)] = i\n", New: "\t\t\t\tsrcs[filepath.Clean(src)] = i\n",
+		Rule: "R20.11", Construct: "source stored in canonical form"})
+	mutant(&Mutant{Name: "c19-sync-onto-itself-recognised-by-name-only", Property: "C19", File: "cmd/minify/main.go",
+		Old: "\t\tif sameFile, _ := SameFile(t.srcs[0], t.dst); sameFile || t.srcs[0] == t.dst {", New: "\t\tif t.srcs[0] == t.dst {",
+		Rule: "R19.21", Construct: "after the cleanup of the backup"})
+	mutant(&Mutant{Name: "c19-selection-folds-case-inference-does-not", Property: "C19", File: "cmd/minify/main.go",
+		Old: "\text := filepath.Ext(filename)\n\tif 0 < len(ext) {\n\t\text = ext[1:]\n\t}\n\tif _, ok := extMap[ext]; !ok {\n\t\treturn false", New: "\text := strings.ToLower(filepath.Ext(filename))\n\tif 0 < len(ext) {\n\t\text = ext[1:]\n\t}\n\tif _, ok := extMap[ext]; !ok {\n\t\treturn false",
+		Rule: "R19.22", Construct: "extension key derived as in minify()"})
+	mutant(&Mutant{Name: "c19-duplicate-destinations-accepted", Property: "C19", File: "cmd/minify/main.go",
+		Old: "\t\t\t} else if j, ok := dsts[abs(task.dst)]; ok {\n\t\t\t\treturn nil, nil, fmt.Errorf(\"output %v of %v is also the output of %v\", task.dst, task.srcs[0], tasks[j].srcs[0])\n\t\t\t}\n", New: "\t\t\t}\n",
+		Rule: "R19.19", Construct: "destinations are pairwise distinct"})
+	mutant(&Mutant{Name: "c19-cross-check-refuses-bundles", Property: "C19", File: "cmd/minify/main.go",
+		Old: "\tif !bundle && output != \"\" {\n\t\tabs := func", New: "\tif output != \"\" {\n\t\tabs := func",
+		Rule: "R19.20", Construct: "cross-check error only without --bundle"})
 	mutant(&Mutant{Name: "c20-cleanup-recognises-backup-by-name", Property: "C20", File: "cmd/minify/main.go",
 		Old: "\t\tif i == backup {\n\t\t\tif err == nil {", New: "\t\tif _ = backup; srcs[i] == t.dst+\".bak\" {\n\t\t\tif err == nil {",
 		Rule: "R20.9", Construct: "only for the backup made by this run"})
@@ -200,6 +215,7 @@ func runC20(c *Ctx) {
 	c.r208(x, "R20.8")
 	c.r209(x, "R20.9")
 	c.r2010(x)
+	c.r2011(x, "R20.11")
 }
 
 // R20.8 (= R19.11): taking the backup does not destroy a file that is already there.
@@ -1186,6 +1202,11 @@ func runC19(c *Ctx) {
 	c.r1915(x)
 	c.r1916(x)
 	c.r1917(x)
+	c.r2011(x, "R19.18")
+	c.r1919(x)
+	c.r1920(x)
+	c.r1921(x)
+	c.r1922(x)
 	// a bundle written onto one of its inputs: the input is truncated by the open before the lazy reader gets to it,
 	// so the output silently lacks that file — the ordering rule of C20 is a condition of "the library's output" too
 	c.alsoUnder(map[string]string{"R20.1": "R19.13"}, nil, func() { c.r201(x) })
@@ -2179,7 +2200,7 @@ func (c *Ctx) r1917(x *cliCtx) {
 // R20.10: no task writes onto the input of another task.
 func (c *Ctx) r2010(x *cliCtx) {
 	const rule = "R20.10"
-	c.R.Rule(rule, "tasks run concurrently and each protects only its own sources (the SameFile test of minify() compares t.dst with t.srcs). With the output directory inside the input tree — `minify -r -o dir/sub/ dir/` — the destination of dir/x.js is dir/sub/x.js, which is itself the source of another task: it is truncated and rewritten without a backup before or while that task reads it, and its original content exists nowhere afterwards. In cmd/minify.createTasks the successful return is dominated by a loop over the tasks that looks a task's dst up in a collection keyed by source paths (an index expression or a call whose argument mentions .dst), whose failure outcome returns an error")
+	c.R.Rule(rule, "tasks run concurrently and each protects only its own sources (the SameFile test of minify() compares t.dst with t.srcs). With the output directory inside the input tree — `minify -r -o dir/sub/ dir/` — the destination of dir/x.js is dir/sub/x.js, which is itself the source of another task: it is truncated and rewritten without a backup before or while that task reads it, and its original content exists nowhere afterwards. In cmd/minify.createTasks the successful return is, with the bundle flag off (a bundle is one task, whose own sources minify() protects) and an output other than stdout, dominated by a loop over the tasks that looks a task's dst up in a collection keyed by source paths (an index expression on a map that a loop over the tasks fills with their sources, or a call whose argument mentions .dst), whose failure outcome returns an error")
 	pk, info := x.pk, x.info
 	fd := c.fn(rule, pk, "createTasks")
 	if fd == nil {
@@ -2200,6 +2221,12 @@ func (c *Ctx) r2010(x *cliCtx) {
 		c.R.Unres(rule, "main.createTasks/success return", c.pos(fd), "no `return …, nil` found")
 		return
 	}
+	srcMaps := map[string]bool{}
+	for _, s := range c.crossCheckSites(x, fd) {
+		if !s.isDst && s.store {
+			srcMaps[str(s.idx.X)] = true
+		}
+	}
 	crossCheck := func(q *flow.Node) bool {
 		if q.Kind != flow.KRange {
 			return false
@@ -2212,7 +2239,8 @@ func (c *Ctx) r2010(x *cliCtx) {
 		ast.Inspect(rs.Body, func(z ast.Node) bool {
 			switch e := z.(type) {
 			case *ast.IndexExpr:
-				if _, isMap := info.TypeOf(e.X).Underlying().(*types.Map); isMap && strings.Contains(nospace(str(e.Index)), ".dst") {
+				// a look-up of a destination in a map that is filled with sources
+				if _, isMap := info.TypeOf(e.X).Underlying().(*types.Map); isMap && strings.Contains(nospace(str(e.Index)), ".dst") && srcMaps[str(e.X)] {
 					hit = true
 				}
 			case *ast.CallExpr:
@@ -2229,7 +2257,458 @@ func (c *Ctx) r2010(x *cliCtx) {
 	}
 	for i, r := range rets {
 		r := r
-		p := g.Path(flow.Search{From: []*flow.Node{g.Entry}, Goal: func(q *flow.Node) bool { return q == r }, Avoid: crossCheck})
+		p := g.Path(flow.Search{From: []*flow.Node{g.Entry}, Goal: func(q *flow.Node) bool { return q == r }, Avoid: crossCheck, Assume: noBundleToFiles})
 		c.R.Check(p == nil, rule, fmt.Sprintf("main.createTasks/destinations checked against all sources#%d", i+1), c.pos(r.Ast()), "a loop over the tasks looks every dst up among the sources before the tasks are returned", "the tasks are handed out without comparing any destination with the sources of the other tasks: with the output directory inside the input tree a file that is still to be read is overwritten (`minify -r -o dir/sub/ dir/` loses dir/sub/x.js)")
+	}
+}
+
+// crossCheckSites lists, in createTasks, the map index expressions inside loops over the tasks whose key mentions a
+// task's destination (".dst") or one of its sources (the range variable of a loop over ".srcs").
+type crossSite struct {
+	idx   *ast.IndexExpr
+	isDst bool
+	store bool // the index expression is assigned to
+}
+
+func (c *Ctx) crossCheckSites(x *cliCtx, fd *ast.FuncDecl) []crossSite {
+	info := x.info
+	var out []crossSite
+	ast.Inspect(fd.Body, func(z ast.Node) bool {
+		rs, ok := z.(*ast.RangeStmt)
+		if !ok || !strings.Contains(nospace(str(rs.X)), "tasks") {
+			return true
+		}
+		srcVars := map[types.Object]bool{}
+		ast.Inspect(rs.Body, func(y ast.Node) bool {
+			if in, ok := y.(*ast.RangeStmt); ok && strings.Contains(nospace(str(in.X)), ".srcs") {
+				if id, ok := in.Value.(*ast.Ident); ok {
+					srcVars[info.Defs[id]] = true
+				}
+			}
+			return true
+		})
+		ast.Inspect(rs.Body, func(y ast.Node) bool {
+			e, ok := y.(*ast.IndexExpr)
+			if !ok {
+				return true
+			}
+			if _, isMap := info.TypeOf(e.X).Underlying().(*types.Map); !isMap {
+				return true
+			}
+			isDst := strings.Contains(nospace(str(e.Index)), ".dst")
+			isSrc := false
+			ast.Inspect(e.Index, func(w ast.Node) bool {
+				if id, ok := w.(*ast.Ident); ok && srcVars[info.Uses[id]] {
+					isSrc = true
+				}
+				return true
+			})
+			if !isDst && !isSrc {
+				return true
+			}
+			store := false
+			if as, ok := c.P.Parent(e).(*ast.AssignStmt); ok {
+				for _, l := range as.Lhs {
+					if l == ast.Expr(e) {
+						store = true
+					}
+				}
+			}
+			out = append(out, crossSite{e, isDst, store})
+			return true
+		})
+		return false
+	})
+	return out
+}
+
+// canonicalPath: e is a call of a function (declared, or a literal bound once to a local) whose body calls
+// filepath.Abs or filepath.EvalSymlinks on its parameter.
+func (c *Ctx) canonicalPath(x *cliCtx, fd *ast.FuncDecl, e ast.Expr) bool {
+	info := x.info
+	call, ok := ast.Unparen(e).(*ast.CallExpr)
+	if !ok || len(call.Args) != 1 {
+		return false
+	}
+	var body *ast.BlockStmt
+	switch f := ast.Unparen(call.Fun).(type) {
+	case *ast.Ident:
+		obj := info.Uses[f]
+		if fn, isFn := obj.(*types.Func); isFn {
+			if d := load.Func(x.pk, fn.Name()); d != nil && fn.Pkg() == x.pk.Types {
+				body = d.Body
+			}
+		} else if obj != nil {
+			n := 0
+			ast.Inspect(fd.Body, func(z ast.Node) bool {
+				as, ok := z.(*ast.AssignStmt)
+				if !ok {
+					return true
+				}
+				for i, l := range as.Lhs {
+					if id, ok := l.(*ast.Ident); ok && (info.Defs[id] == obj || info.Uses[id] == obj) && i < len(as.Rhs) {
+						n++
+						if lit, ok := as.Rhs[i].(*ast.FuncLit); ok {
+							body = lit.Body
+						}
+					}
+				}
+				return true
+			})
+			if n != 1 {
+				body = nil
+			}
+		}
+	}
+	if body == nil {
+		return false
+	}
+	hit := false
+	ast.Inspect(body, func(z ast.Node) bool {
+		if ce, ok := z.(*ast.CallExpr); ok {
+			switch calleeName(info, ce) {
+			case "path/filepath.Abs", "path/filepath.EvalSymlinks":
+				hit = true
+			}
+		}
+		return true
+	})
+	return hit
+}
+
+// R20.11 (= R19.18): the comparison of destinations with sources does not depend on how a path is spelled.
+func (c *Ctx) r2011(x *cliCtx, rule string) {
+	c.R.Rule(rule, "the cross-check of createTasks compares path strings, and the same file has many spellings: with the output given as an absolute path and the inputs as relative ones — `minify -r -o $PWD/src/ src/sub/ src/x.js` — the destination $PWD/src/x.js of src/sub/x.js is not found among the sources although it is the input src/x.js, which is then overwritten without a backup. Every key stored in or looked up in the collections of that check (map index expressions inside the loops over the tasks whose key mentions .dst or a source) is the result of one canonicalising function — a function whose body calls filepath.Abs or filepath.EvalSymlinks")
+	fd := c.fn(rule, x.pk, "createTasks")
+	if fd == nil {
+		return
+	}
+	sites := c.crossCheckSites(x, fd)
+	if len(sites) < 2 {
+		c.R.Unres(rule, "main.createTasks/cross-check keys", c.pos(fd), fmt.Sprintf("%d map index expressions on destinations and sources found in loops over the tasks, at least 2 expected (one store, one look-up)", len(sites)))
+		return
+	}
+	n := map[string]int{}
+	for _, s := range sites {
+		kind := "source"
+		if s.isDst {
+			kind = "destination"
+		}
+		op := "looked up"
+		if s.store {
+			op = "stored"
+		}
+		k := kind + " " + op
+		n[k]++
+		c.R.Check(c.canonicalPath(x, fd, s.idx.Index), rule, fmt.Sprintf("main.createTasks/%s in canonical form#%d", k, n[k]), c.pos(s.idx), "the key is the result of the canonicalising function", "the key `"+str(s.idx.Index)+"` is a path as it was spelled on the command line: an absolute output and a relative input (or `./x` and `x`) name the same file and do not compare equal, so the overwrite of another task's input goes unnoticed")
+	}
+}
+
+// R19.19: no two tasks write one destination.
+func (c *Ctx) r1919(x *cliCtx) {
+	const rule = "R19.19"
+	c.R.Rule(rule, "without --bundle every task writes its own file; two inputs of the same name from different directories sent to one output directory — `minify -o out/ a/x.js b/x.js` — give two tasks with the destination out/x.js, the workers write it concurrently and the output of one input is lost without any message. In cmd/minify.createTasks a loop over the tasks stores every destination in a map and looks every destination up in that same map, and the success return is not reachable, with the bundle flag off and an output other than stdout, without passing that loop")
+	fd := c.fn(rule, x.pk, "createTasks")
+	if fd == nil {
+		return
+	}
+	sites := c.crossCheckSites(x, fd)
+	stored, looked := map[string]bool{}, map[string]bool{}
+	var loop ast.Node
+	for _, s := range sites {
+		if !s.isDst {
+			continue
+		}
+		if s.store {
+			stored[str(s.idx.X)] = true
+		} else {
+			looked[str(s.idx.X)] = true
+		}
+	}
+	var both []string
+	for m := range stored {
+		if looked[m] {
+			both = append(both, m)
+		}
+	}
+	sort.Strings(both)
+	if len(both) > 0 {
+		for _, s := range sites {
+			if s.isDst && s.store && str(s.idx.X) == both[0] {
+				for p := c.P.Parent(s.idx); p != nil; p = c.P.Parent(p) {
+					if rs, ok := p.(*ast.RangeStmt); ok && strings.Contains(nospace(str(rs.X)), "tasks") {
+						loop = rs
+						break
+					}
+				}
+			}
+		}
+	}
+	c.R.Check(loop != nil, rule, "main.createTasks/destinations are pairwise distinct", c.pos(fd), "a map keyed by destination is filled and consulted in a loop over the tasks", "no collection is both filled with and searched for the destinations of the tasks: two inputs with one destination (`minify -o out/ a/x.js b/x.js`) are written onto each other by concurrent workers and one output is lost")
+	if loop == nil {
+		return
+	}
+	g := c.graph(x.pk, fd)
+	for i, r := range c.successReturns(g) {
+		r := r
+		p := g.Path(flow.Search{From: []*flow.Node{g.Entry}, Goal: func(q *flow.Node) bool { return q == r }, Assume: noBundleToFiles,
+			Avoid: func(q *flow.Node) bool { return q.Kind == flow.KRange && q.Stmt == loop }})
+		c.R.Check(p == nil, rule, fmt.Sprintf("main.createTasks/distinctness loop precedes the return#%d", i+1), c.pos(r.Ast()), "with the bundle flag off every path to the successful return passes the loop", "the tasks can be returned, without --bundle, on a path that skips the comparison of destinations")
+	}
+}
+
+// noBundleToFiles: the cross-checks of createTasks matter when several tasks write files: the bundle flag is off (a
+// bundle is one task) and the output is not stdout (the empty output string: nothing is written to the file system).
+var noBundleToFiles = map[string]bool{"bundle": false, `output == ""`: false, `"" == output`: false}
+
+func (c *Ctx) successReturns(g *flow.Graph) []*flow.Node {
+	var rets []*flow.Node
+	for _, y := range g.Nodes {
+		if rs := retStmt(y); rs != nil && len(rs.Results) > 0 && isNilExpr(rs.Results[len(rs.Results)-1]) && c.enclosingLit(rs) == nil {
+			rets = append(rets, y)
+		}
+	}
+	return rets
+}
+
+// R19.20: the cross-checks of createTasks do not refuse a bundle onto one of its inputs.
+func (c *Ctx) r1920(x *cliCtx) {
+	const rule = "R19.20"
+	c.R.Rule(rule, "with --bundle createTasks still makes one task per input, all with the same destination, and run() merges them afterwards; `minify -b -o a.css a.css b.css` is a supported in-place bundle (minify() renames a.css to a backup first). A cross-check between tasks that fires in bundle mode refuses that invocation. Every error return of createTasks that follows a look-up of a destination among sources or destinations is dominated by the false outcome of the bundle flag")
+	fd := c.fn(rule, x.pk, "createTasks")
+	if fd == nil {
+		return
+	}
+	g := c.graph(x.pk, fd)
+	sites := c.crossCheckSites(x, fd)
+	n := 0
+	for _, s := range sites {
+		if !s.isDst || s.store {
+			continue
+		}
+		// the look-up sits in the condition (or init) of an if whose body returns an error
+		var ifs *ast.IfStmt
+		for p := c.P.Parent(s.idx); p != nil; p = c.P.Parent(p) {
+			if i, ok := p.(*ast.IfStmt); ok {
+				ifs = i
+				break
+			}
+			if _, ok := p.(*ast.RangeStmt); ok {
+				break
+			}
+		}
+		if ifs == nil {
+			continue
+		}
+		for _, st := range ifs.Body.List {
+			rs, ok := st.(*ast.ReturnStmt)
+			if !ok || len(rs.Results) == 0 || isNilExpr(rs.Results[len(rs.Results)-1]) {
+				continue
+			}
+			n++
+			rn := g.NodeOf(rs)
+			ok2 := false
+			if rn != nil {
+				for _, f := range g.DomFacts(rn) {
+					if f.Test.Kind != flow.KCond {
+						continue
+					}
+					if k, neg, okk := flow.CondKey(f.Test.Expr, x.info, false); okk && k == "bundle" && (f.Value == neg) {
+						ok2 = true
+					}
+				}
+			}
+			c.R.Check(ok2, rule, fmt.Sprintf("main.createTasks/cross-check error only without --bundle#%d", n), c.pos(rs), "the error return is dominated by `!bundle`", "a destination that is also a source (or a second task's destination) is refused in bundle mode too, where all tasks share the destination by construction: `minify -b -o a.css a.css b.css` fails with an error although the in-place bundle is supported")
+		}
+	}
+	if n == 0 {
+		c.R.Unres(rule, "main.createTasks/cross-check error returns", c.pos(fd), "no error return behind a destination look-up found")
+	}
+}
+
+// R19.21: after the backup was made, no successful exit skips the cleanup.
+func (c *Ctx) r1921(x *cliCtx) {
+	const rule = "R19.21"
+	c.R.Rule(rule, "a file minified onto itself is first renamed to <dst>.bak; the loop at the end of cmd/minify.minify removes that backup (or moves it back when writing failed). An exit that reports success without reaching that loop leaves the backup behind — and the next in-place run refuses to work because the backup name is taken. From the rename of the destination to its backup name, every path to a `return true` / `return success` of minify passes the head of a loop whose body tests the backup witness (`i == backup`, or the backup's name) and removes or renames a file. A return of the copy branch (`t.sync` true; such a task has one source) is also in order when, with t.sync true, the rename cannot be reached from the entry without the false outcome of SameFile(t.srcs[0], t.dst): then no backup exists. `minify -s -r -o $PWD/src/ src/` left src/n.txt.bak behind")
+	g, info := x.g, x.info
+	renameN := x.backupRenameNode()
+	if renameN == nil {
+		c.R.Unres(rule, "main.minify/backup rename", c.pos(x.fd), "no rename of the destination to a backup found")
+		return
+	}
+	// cleanup loops: range/for loops whose body has an os.Remove / os.Rename under a backup guard
+	cleanup := map[ast.Stmt]bool{}
+	for _, y := range g.Nodes {
+		a := y.Ast()
+		if a == nil || y.Kind != flow.KStmt {
+			continue
+		}
+		for _, call := range findCalls(info, a, false, "os.Remove", "os.Rename") {
+			if len(call.Args) == 0 || y == renameN {
+				continue
+			}
+			guarded := false
+			for _, f := range g.DomFacts(y) {
+				if f.Value && f.Test.Kind == flow.KCond && x.isBackupGuard(f.Test.Expr, call.Args[0]) {
+					guarded = true
+				}
+			}
+			if !guarded {
+				continue
+			}
+			for p := c.P.Parent(call); p != nil; p = c.P.Parent(p) {
+				switch l := p.(type) {
+				case *ast.RangeStmt:
+					cleanup[l] = true
+				case *ast.ForStmt:
+					cleanup[l] = true
+				}
+				if _, isLit := p.(*ast.FuncLit); isLit {
+					break
+				}
+			}
+		}
+	}
+	if len(cleanup) == 0 {
+		c.R.Unres(rule, "main.minify/cleanup loop", c.pos(x.fd), "no loop that removes or restores the backup under a backup guard found")
+		return
+	}
+	n := 0
+	for _, y := range g.Nodes {
+		rs := retStmt(y)
+		if rs == nil || len(rs.Results) != 1 || c.enclosingLit(rs) != nil {
+			continue
+		}
+		r := nospace(str(rs.Results[0]))
+		if r == "false" {
+			continue
+		}
+		y := y
+		if g.Path(flow.Search{From: []*flow.Node{renameN}, Goal: func(q *flow.Node) bool { return q == y }}) == nil {
+			continue // not reachable after the rename
+		}
+		n++
+		p := g.Path(flow.Search{From: []*flow.Node{renameN}, Goal: func(q *flow.Node) bool { return q == y }, Avoid: func(q *flow.Node) bool {
+			return (q.Kind == flow.KRange || q.Kind == flow.KCond) && q.Stmt != nil && cleanup[q.Stmt]
+		}})
+		how := "every path from the backup rename passes the cleanup loop"
+		if p != nil {
+			// a return of the sync (copy) branch: no backup exists there if a sync task whose source is the destination
+			// itself left the function before the rename (a sync task has exactly one source, NewTask)
+			inSync := false
+			for _, f := range g.DomFacts(y) {
+				if f.Value && f.Test.Kind == flow.KCond && nospace(str(f.Test.Expr)) == "t.sync" {
+					inSync = true
+				}
+			}
+			if inSync {
+				sameVars := map[types.Object]bool{}
+				for _, z := range g.Nodes {
+					as, ok := z.Stmt.(*ast.AssignStmt)
+					if !ok || len(as.Rhs) != 1 || len(as.Lhs) < 1 {
+						continue
+					}
+					if call := isCall(info, ast.Unparen(as.Rhs[0]), load.Mod+"/cmd/minify.SameFile"); call != nil && len(call.Args) == 2 &&
+						nospace(str(call.Args[0])) == "t.srcs[0]" && nospace(str(call.Args[1])) == "t.dst" {
+						if id, ok := as.Lhs[0].(*ast.Ident); ok {
+							sameVars[info.ObjectOf(id)] = true
+						}
+					}
+				}
+				notSame := func(q *flow.Node) bool {
+					if q.Kind != flow.KFalse || q.Of == nil || q.Of.Kind != flow.KCond {
+						return false
+					}
+					id, ok := ast.Unparen(q.Of.Expr).(*ast.Ident)
+					return ok && sameVars[info.Uses[id]]
+				}
+				viaNotSame := g.Path(flow.Search{From: []*flow.Node{g.Entry}, IncludeFrom: true, Goal: func(q *flow.Node) bool { return q == renameN }, Avoid: notSame,
+					TrackFields: true, Track: true, Assume: map[string]bool{"t.sync": true}})
+				if len(sameVars) > 0 && viaNotSame == nil {
+					p = nil
+					how = "a sync task reaches the rename only after SameFile(t.srcs[0], t.dst) was false: no backup is made for it"
+				}
+			}
+		}
+		c.R.Check(p == nil, rule, fmt.Sprintf("main.minify/return %s#%d after the cleanup of the backup", r, n), c.pos(rs), how, "after the original was renamed to its backup this exit reports success without passing the loop that removes the backup: "+pathStr(c, g, p)+" — `minify -o empty.css empty.css` leaves empty.css.bak behind and the next in-place run fails")
+	}
+	c.R.Floor(rule, "successful returns reachable after the backup rename", n, 2)
+}
+
+// R19.22: selection and type inference derive the extension in the same way.
+func (c *Ctx) r1922(x *cliCtx) {
+	const rule = "R19.22"
+	c.R.Rule(rule, "a file is selected by looking its extension up in extMap (fileMatches for directory walks, createTasks for named files) and later minified under the type found by the same look-up in minify(). The sites must derive the key in the same way — the same functions applied to the file name (filepath.Ext, and whatever case mapping or trimming is wanted, at every site) — otherwise a file is selected that minify() then cannot type (`LOGO.SVG` with a case-folding selection: not minified, not copied by --sync, exit status 1), or the reverse. For every look-up extMap[k] in package main whose key k is a local defined from filepath.Ext, the set of functions called in the definitions of k is collected; all sites have the same set")
+	pk, info := x.pk, x.info
+	type site struct {
+		fn  string
+		pos ast.Node
+		set string
+	}
+	var sites []site
+	for _, fd := range load.FuncDecls(pk) {
+		if fd.Body == nil {
+			continue
+		}
+		ast.Inspect(fd.Body, func(z ast.Node) bool {
+			ie, ok := z.(*ast.IndexExpr)
+			if !ok || nospace(str(ie.X)) != "extMap" {
+				return true
+			}
+			id, ok := ast.Unparen(ie.Index).(*ast.Ident)
+			if !ok {
+				return true
+			}
+			obj := info.Uses[id]
+			if obj == nil {
+				return true
+			}
+			calls := map[string]bool{}
+			ast.Inspect(fd.Body, func(w ast.Node) bool {
+				as, ok := w.(*ast.AssignStmt)
+				if !ok {
+					return true
+				}
+				for k, l := range as.Lhs {
+					lid, ok := l.(*ast.Ident)
+					if !ok || info.ObjectOf(lid) != obj || k >= len(as.Rhs) {
+						continue
+					}
+					ast.Inspect(as.Rhs[k], func(v ast.Node) bool {
+						if ce, ok := v.(*ast.CallExpr); ok {
+							if cn := calleeName(info, ce); cn != "" && cn != "len" {
+								calls[cn] = true
+							}
+						}
+						return true
+					})
+				}
+				return true
+			})
+			if !calls["path/filepath.Ext"] {
+				return true
+			}
+			sites = append(sites, site{load.FuncName(fd), ie, joinSorted(calls)})
+			return true
+		})
+	}
+	if len(sites) < 3 {
+		c.R.Unres(rule, "main/extension look-ups", "-", fmt.Sprintf("%d look-ups of a file extension in extMap found, 3 were confirmed by hand (fileMatches, createTasks, minify)", len(sites)))
+		return
+	}
+	// the reference is the derivation of minify(), which decides what the library is called with
+	ref := ""
+	for _, s := range sites {
+		if s.fn == "minify" {
+			ref = s.set
+		}
+	}
+	if ref == "" {
+		ref = sites[0].set
+	}
+	seen := map[string]int{}
+	for _, s := range sites {
+		seen[s.fn]++
+		c.R.Check(s.set == ref, rule, fmt.Sprintf("main.%s/extension key derived as in minify()#%d", s.fn, seen[s.fn]), c.pos(s.pos), "key derived by "+s.set, "the extension is derived by {"+s.set+"} here but by {"+ref+"} where the media type is inferred: the two look-ups disagree for some file names (`LOGO.SVG`), so a file is selected but cannot be typed — it is neither minified nor copied and the run fails — or is typed but never selected")
 	}
 }
